@@ -52,6 +52,7 @@ def spec(f, args, kwargs, options, update_cache=True):
   w.add(Contract(
       A + 'converted_call', mode='event', serves=['C13', 'C01'], pure=PUREP,
       inline=[A + '_call_unconverted', A + '_fall_back_unconverted', A + 'is_autograph_artifact'],
+      callbacks=['malt.operators.py_builtins.overload_of'],   # (its own contract: contracts/c14_builtins.py)
       spec=CONVERTED_CALL_SPEC,
       assumes=['the policy predicates (allow-list cache, is_unsupported, is_allowlisted, isbuiltin, strict mode) are '
                'pure functions of their arguments', 'plain log lines are dropped; warnings are observable events']))
